@@ -602,8 +602,13 @@ func encodeXtext(raw string) string {
 			// printable non-space US-ASCII except '+' and '='
 			out.WriteRune(ch)
 		default:
+			// hexchar = "+" 2HEXDIG
+			hex := strings.ToUpper(strconv.FormatInt(int64(ch), 16))
+			if len(hex) < 2 {
+				hex = "0" + hex
+			}
 			out.WriteRune('+')
-			out.WriteString(strings.ToUpper(strconv.FormatInt(int64(ch), 16)))
+			out.WriteString(hex)
 		}
 	}
 	return out.String()
@@ -616,8 +621,8 @@ func encodeUTF8AddrXtext(raw string) string {
 
 	for _, ch := range raw {
 		switch {
-		case ch >= '!' && ch <= '~' && ch != '+' && ch != '=':
-			// printable non-space US-ASCII except '+' and '='
+		case ch >= '!' && ch <= '~' && ch != '+' && ch != '=' && ch != '\\':
+			// printable non-space US-ASCII except '+', '=' and '\\'
 			out.WriteRune(ch)
 		default:
 			out.WriteRune('\\')
@@ -637,8 +642,8 @@ func encodeUTF8AddrUnitext(raw string) string {
 
 	for _, ch := range raw {
 		switch {
-		case ch >= '!' && ch <= '~' && ch != '+' && ch != '=':
-			// printable non-space US-ASCII except '+' and '='
+		case ch >= '!' && ch <= '~' && ch != '+' && ch != '=' && ch != '\\':
+			// printable non-space US-ASCII except '+', '=' and '\\'
 			out.WriteRune(ch)
 		case ch <= '\x7F':
 			// other ASCII: CTLs, space and specials
